@@ -80,6 +80,7 @@ func removeLocationsFromSourceCodeInfo(
 	indices := make(map[int]struct{}, len(pathsToRemove)*2)
 	// each path in this trie is for a FieldOptions message (not for a singular option)
 	var fieldOptionsPaths fieldOptionsTrie
+	fieldOptionsWithRemovedOption := make(map[string]struct{})
 	for i, location := range sourceCodeInfo.Location {
 		path := location.Path
 		pathType := getPathType(path)
@@ -131,12 +132,16 @@ func removeLocationsFromSourceCodeInfo(
 			// where two field options share the same parent.
 			// Therefore, do not remove the parent path yet.
 			indices[i] = struct{}{}
+			fieldOptionsWithRemovedOption[getPathKey(path[:len(path)-1])] = struct{}{}
 			continue
 		}
 		return fmt.Errorf("path %v is neither a file option path nor a field option path", location.Path)
 	}
 	for _, emptyFieldOptions := range fieldOptionsPaths.indicesWithoutDescendant() {
-		indices[emptyFieldOptions] = struct{}{}
+		// Only a FieldOptions location that lost an option may go; `[json_name = "x"]` has none to begin with.
+		if _, ok := fieldOptionsWithRemovedOption[getPathKey(sourceCodeInfo.Location[emptyFieldOptions].Path)]; ok {
+			indices[emptyFieldOptions] = struct{}{}
+		}
 	}
 	// Now that we know exactly which indices to exclude, we can
 	// filter the SourceCodeInfo_Locations as needed.
